@@ -347,13 +347,8 @@ class Program:
                     continue
                 if m not in (modelled if rooted else modelled_plain):
                     problems.append(f"{c.module.relpath}:{c.name} defines {m} (implicit invocation is not modelled)")
-        for f in self.all_functions():
-            for n in ast.walk(f.node):
-                if isinstance(n, ast.Call) and isinstance(n.func, ast.Name) and n.func.id in (
-                        "setattr", "exec", "eval", "globals", "vars", "delattr"):
-                    problems.append(f"{f.where} calls {n.func.id}()")
-                if isinstance(n, ast.Attribute) and n.attr == "__dict__":
-                    problems.append(f"{f.where} touches __dict__")
+        # reflective calls (setattr / vars / exec / eval / globals / delattr) and __dict__ accesses are refused where the
+        # interpreter meets them (an analysis that never reaches them is not affected)
         return problems
 
 
